@@ -80,6 +80,22 @@ CLAIMED.update({
         technique="Lean 4 proof (greedy-removal invariant) + exhaustive differential correspondence"),
 })
 
+CLAIMED.update({
+    "C09": dict(
+        text="Partial proof + exploration. Proved: the result entry depends only on the set of candidates (order-free). "
+             "The scaling / monotonicity / swap / outgroup clauses are stated in Lean at the level of the specification's "
+             "optimum; renaming and re-running are runtime facts.  All clauses are decided on generated inputs by "
+             "metamorphic runs of the real solvers (swap, rename, outgroup, repeat, scale, raise; fresh processes under "
+             "different hash seeds in the thorough tier) whose canonical results must equal the original's and the Lean model's.",
+        design="7 C09", note=SOLVER_NOTE, technique="Lean 4 model as single reference + metamorphic correspondence; partial proof"),
+    "C10": dict(
+        text="Partial proof + exploration. Proved: enlarging the candidate set of a result entry can only lower the "
+             "kept cost; any offered valid candidate bounds the result.  The four inequalities and the single-family "
+             "coincidence are stated in Lean and decided on generated inputs on the real algorithms' costs, which are "
+             "also compared with the Lean models' table minima.",
+        design="7 C10", note=SOLVER_NOTE, technique="Lean 4 models + partial proof; cross-algorithm differential correspondence"),
+})
+
 PENDING = "check not built yet in this round (planned: Lean 4 model + proof + correspondence, see DESIGN.md section 7)"
 
 
